@@ -1691,7 +1691,12 @@ func (w *qWorld) checkLate() {
 			continue
 		}
 		var mine []*delivery
+		occupied := int64(0)
 		for _, d := range co.Dels {
+			if d.Answer == "" && !d.Voided && lastDel(d.mc) == d {
+				// (also the deliveries an earlier command may or may not have answered: they may hold a RDY slot)
+				occupied++
+			}
 			if d.Answer == "" && !d.Voided && !d.maybeAnswered && lastDel(d.mc) == d {
 				if d.Step == cm.VoidStep && cm.VoidSeq != 0 {
 					// handed out in the very epoch in which the channel was emptied: if before the empty, it is
@@ -1704,7 +1709,7 @@ func (w *qWorld) checkLate() {
 				mine = append(mine, d)
 			}
 		}
-		if int64(len(mine)) > co.Rdy {
+		if int64(len(mine)) > co.Rdy || occupied > co.Rdy {
 			continue
 		}
 		for _, d := range mine {
